@@ -59,6 +59,8 @@ func allProps(k *Contract) []string {
 	add(k.Requires)
 	add(k.Ensures)
 	add(k.PanicEnsures)
+	add(k.AssumedEnsures)
+	add(k.AssumedPanicEnsures)
 	for _, l := range k.Loops {
 		add(l.Invariants)
 	}
